@@ -93,7 +93,7 @@ def _read_dests(root):
     return out
 
 
-def invoke(root, argv, run_id, fault_at=0, cwd="/work", script="/scripts/runner.sh"):
+def invoke(root, argv, run_id, fault_at=0, cwd="/work", script="/scripts/runner.sh", late=False):
     """One invocation of /scripts/runner.sh (or `script`) with the given arguments.  Returns what was observed."""
     vp = os.path.join(root, "vp")
     for f in ("counter", "commands"):
@@ -102,7 +102,7 @@ def invoke(root, argv, run_id, fault_at=0, cwd="/work", script="/scripts/runner.
         except OSError:
             pass
     r = enter(root, ["/bin/bash", "-c", "cd %s && exec %s %s" % (cwd, script, " ".join(argv))],
-              env={"VP_FAULT_AT": str(fault_at), "VP_RUN_ID": run_id})
+              env={"VP_FAULT_AT": str(fault_at), "VP_RUN_ID": run_id, "VP_FAULT_LATE": "1" if late else "0"})
     cmds = []
     cf = os.path.join(vp, "commands")
     if os.path.exists(cf):
